@@ -130,7 +130,8 @@ func renderNodeWithContext(ctx VueContext, w io.Writer, node *html.Node, indent 
 		_, _ = w.Write([]byte("<!DOCTYPE " + node.Data + ">\n"))
 
 	case html.TextNode:
-		if strings.TrimSpace(node.Data) == "" {
+		// Only HTML whitespace is insignificant: a no-break space is content.
+		if strings.Trim(node.Data, " \t\n\r\f") == "" {
 			return nil
 		}
 		spaces := getIndent(indent)
